@@ -576,6 +576,22 @@ def patch_case(ck, batch, t, structure, mapping, tag, describe):
         new = None
     batch.add(f'patch_res_eqb (patcher_with {MODEL_FUNCTION} {m_term} {before} {zl(to_del)} {t_term}) ({res})',
               {'kind': tag, 'input': describe, 'observed': res[:200]}, ctx=(t, structure, dict(mapping0), describe))
+    if new is not None:
+        # untouched stereogenic tetrahedrons: order of the environment and the label of the product (fix_stereo may only drop it)
+        try:
+            sth = structure.stereogenic_tetrahedrons
+            gone = t._get_deleted(structure, dict(mapping0))
+        except Exception:
+            sth, gone = {}, set()
+        named = {mapping0.get(k) for k in t._replacement} - {None}
+        obs = [(n, sth[n], new._atoms[n].stereo) for n, a in structure.atoms()
+               if n in sth and a.stereo is not None and n not in named and n not in gone and n in new._atoms]
+        if obs:
+            from chython.periodictable import H
+            hs = [n for n, a in structure.atoms() if a == H]
+            batch.add(f'stereo_case_eqb {zl(list(sth))} {zl(hs)} {m_term} {lst([tup(tup(zraw(n), zl(env)), opt(lab, b)) for n, env, lab in obs])}',
+                      {'kind': 'untouched stereo labels', 'input': describe, 'observed': [(n, lab) for n, _, lab in obs]}, ctx=(t, structure, dict(mapping0), describe))
+            ck.count('patcher:untouched-stereocentres:label ' + ('kept' if all(lab is not None for _, _, lab in obs) else 'dropped by fix_stereo'))
     ck.count(f'patcher:{tag}:' + ('ok' if ok else res))
     ck.case(('patch', tag, describe, before), nontrivial=ok)
     return new
@@ -592,7 +608,7 @@ def corr_patcher(ck):
     small = ['CCO', 'CC(=O)O', 'CCN', 'NCCO', 'CCOCC', 'c1ccccc1Cl', 'CC(=O)OCC', 'C1N2CC1C2', 'C1N(F)N(C1)Cl', 'OC1CC2CC1C2', 'CC#N',
              'C[N+](C)(C)CC(=O)[O-]', 'CC(N)C(=O)O', 'Brc1ccc(O)cc1', 'C[C@H](N)C(=O)O', 'C/C=C/CO', 'OCC1CO1', 'CC(C)OCc1ccccc1',
              '[13CH3]CO', 'CCO.CCN', 'C[CH]O |^1:1|', 'NN', 'CN(C)N', 'O', 'CO']
-    pool = small + DECORATED + corpus.sample(corpus.lipo(), 40 if quick else 400, ck.seed, 'c16p')
+    pool = small + DECORATED + STEREO + corpus.sample(corpus.lipo(), 40 if quick else 400, ck.seed, 'c16p')
     mols = []
     for smi in pool:
         try:
@@ -1246,6 +1262,19 @@ def search_equivariance(ck, batch=None):
     ck.extra['equivariance_products_checked'] = n
 
 
+def equivariance_step(ck):
+    """search on the real code + the tie of Model rename_mol with Graph.remap on a sample of the same renumberings"""
+    batch = Batch()
+    search_equivariance(ck, batch)
+    ok, failing, log = batch.run('c16rn', chunk=40)
+    ck.oblige('correspondence: Graph.remap of a whole molecule == Coq rename_mol (the renumbering of C16_patcher_equivariant)', ok and not failing,
+              'correspondence', log or str([batch.meta[i] for i in failing[:5]]))
+    ck.extra['rename_cases'] = len(batch.cases)
+    if not ok or failing:
+        ck.unchecked('correspondence ReactorStage.rename_mol vs chython/containers/graph.py:remap', log[-1500:], [repr(batch.meta[i]) for i in failing[:20]])
+    return ok and not failing
+
+
 def search_identity(ck):
     """a template whose replacement equals its pattern returns the input"""
     from chython import smiles, smarts
@@ -1477,7 +1506,9 @@ def run(ck):
         r = f(ck)
         steps[name] = round(time.time() - t0, 1)
         return r
-    proved = timed('proof steps', common.standard_proof_steps)
+    # the only generated table C16 depends on: the tetrahedron translation table (through Proofs.StereoProofs, C12), used by
+    # C16_translate_th_same / C16_untouched_centre_same_configuration
+    proved = timed('proof steps', lambda c: common.standard_proof_steps(c, translators=['stereo']))
     tied = timed('corr to_delete', corr_to_delete)
     tied = timed('corr get_deleted', corr_get_deleted) and tied
     tied = timed('corr patcher', corr_patcher) and tied
@@ -1487,7 +1518,7 @@ def run(ck):
     timed('search get_deleted 5-atom graphs', search_deleted_exhaustive)
     timed('search templates', search_templates)
     timed('search identity', search_identity)
-    timed('search equivariance', search_equivariance)
+    tied = timed('search equivariance + rename tie', equivariance_step) and tied
     timed('search reactor', search_reactor)
     timed('search reactor synthetic', search_reactor_synthetic)
     ck.extra['step_seconds'] = steps
